@@ -856,8 +856,11 @@ fn main() {
         opts.poss = vec![PosK::Same, PosK::Far];
         opts.mania_cols = vec![0, 2];
         opts.tag = "/unsafe-contracts".into();
+        // (in workers built with debug assertions: a use after free or an out-of-bounds access inside a calculation kills the
+        // worker, which pins the case, instead of taking the checker down)
+        ctx.set_worker_exe(Some(root.join("target/vdebug/c11")));
         for u in opts.build() {
-            ctx.universe(&u.name, u.total, |idx, l| {
+            ctx.universe_isolated(&u.name, u.total, 20.0, 2048, |idx, l| {
                 let (spec, map) = u.decode(idx);
                 u.sample(l, idx, &spec, "difficulty, strains, gradual walk under no mod and HR+DT");
                 l.states(1);
@@ -879,6 +882,7 @@ fn main() {
                 }
             });
         }
+        ctx.set_worker_exe(None);
     }
 
     // Miri verdicts
